@@ -115,6 +115,29 @@ class RaiseSummary:
     exact: bool = True          # cond is expressed purely over entry-state terms
 
 
+_BUILTIN_EXC = {n for n in dir(__import__('builtins')) if isinstance(getattr(__import__('builtins'), n), type)
+                and issubclass(getattr(__import__('builtins'), n), BaseException)}
+
+
+def _never_none(t) -> bool:
+    """An exception object built from a builtin class, a string constant or an f-string: objects, never None."""
+    if isinstance(t, App) and (t.fn in _BUILTIN_EXC or (t.fn == 'call' and t.args and isinstance(t.args[0], Sym) and
+                                                        t.args[0].name.rsplit('.', 1)[-1] in _BUILTIN_EXC)):
+        return True
+    if isinstance(t, Const) and isinstance(t.value, (str, bytes)):
+        return True
+    if isinstance(t, Opaque) and t.text.startswith('fstring'):
+        return True
+    return False
+
+
+def strip_at(t):
+    """The term without a top-level invalidation-epoch / container-version wrapper."""
+    while isinstance(t, App) and t.fn in ('@t', '@v') and t.args:
+        t = t.args[0]
+    return t
+
+
 @dataclass
 class WalkOptions:
     unroll: int = 2
@@ -1108,6 +1131,15 @@ class _Ctx:
                 exc = r[1].name
             elif isinstance(e, ast.Name):
                 exc = e.id
+                held = strip_at(st.env.get(e.id)) if e.id in st.env and not isinstance(s.exc, ast.Call) else None
+                if isinstance(held, App):
+                    # `problem = ValueError(...)` ... `raise problem`: the class of the object the local holds on this path
+                    if held.fn.startswith('new:'):
+                        exc = held.fn[4:].rsplit('.', 1)[-1]
+                    elif held.fn in _BUILTIN_EXC:
+                        exc = held.fn
+                    elif held.fn == 'call' and held.args and isinstance(held.args[0], Sym):
+                        exc = held.args[0].name.rsplit('.', 1)[-1]
             elif isinstance(e, ast.Attribute):
                 exc = e.attr
             xargs = None
@@ -1152,16 +1184,26 @@ class _Ctx:
                 outs.append(base)
                 continue
             d = self.decide(base, c) if self.opts.prune else None
+            # a boolean kept in a local (`found = k in d` ... `if found:` ... `if not found:`) holds the value the test had when it
+            # was assigned: once a branch has decided it, the local IS that constant on this path, whatever is written afterwards
+            flag, neg = s.test, False
+            while isinstance(flag, ast.UnaryOp) and isinstance(flag.op, ast.Not):
+                flag, neg = flag.operand, not neg
+            flag = flag.id if isinstance(flag, ast.Name) and isinstance(base.env.get(flag.id), BoolT) else None
             if d is not False:
                 a = base.fork() if d is None else base
                 self.emit(a, 'cond', s, formula=c, taken=True, raw=s.test)
                 self.assert_cond(a, c)
+                if flag:
+                    a.env[flag] = Const(not neg)
                 outs.extend(self.block(s.body, [a]))
             if d is not True:
                 b = base
                 nc = f_not(c)
                 self.emit(b, 'cond', s, formula=nc, taken=False, raw=s.test)
                 self.assert_cond(b, nc)
+                if flag:
+                    b.env[flag] = Const(neg)
                 outs.extend(self.block(s.orelse, [b]) if s.orelse else [b])
         return outs
 
@@ -2342,7 +2384,8 @@ class _Ctx:
             if isinstance(a, Const) and isinstance(b, Const) and all(t.value is None or isinstance(t.value, bool) for t in (a, b)):
                 f = FConst(a.value is b.value)
             elif any(isinstance(t, Const) and t.value is None for t in (a, b)) and \
-                    any(isinstance(t, (Fresh, Num, TupleT)) or (isinstance(t, App) and t.fn.startswith('new:')) for t in (a, b)):
+                    any(isinstance(t, (Fresh, Num, TupleT)) or (isinstance(t, App) and t.fn.startswith('new:')) or _never_none(t)
+                        for t in (a, b)):
                 f = FConst(False)
             return f if isinstance(op, ast.Is) else f_not(f)
         sym = {ast.Lt: '<', ast.LtE: '<=', ast.Gt: '>', ast.GtE: '>=', ast.Eq: '==', ast.NotEq: '!='}[type(op)]
